@@ -1009,6 +1009,37 @@ class Serde17(SimpleCorr):
             return "tags-empty"
         return key
 
+    def token_stage(self, d, seed, tier):
+        """(oracle lines, disagreements, stats, blocks) of the serde token stage"""
+        cases = os.path.join(d, "tok.cases")
+        rc, o, _ = vlib.run([vlib.harness_bin(), "serdetok-gen", "--seed", str(seed), "--cases", "300" if tier == "quick" else "20000", "--out", cases], timeout=600)
+        if rc != 0:
+            return ["tok C17 tok-harness the token stage could not generate its cases: %s" % o[-200:].replace("\n", " ")], [], {}, {}
+        obs, orc, st = [os.path.join(d, "tok" + x) for x in (".impl", ".oracle", ".stats")]
+        rc, o, _ = vlib.run([vlib.harness_bin(), "serdetok-run", cases, obs, orc, st], timeout=1200)
+        if rc != 0:
+            return ["tok C17 tok-harness the token stage could not run: %s" % o[-200:].replace("\n", " ")], [], {}, {}
+        lines = [l.rstrip("\n") for l in open(orc) if " C17 " in l]
+        stats = json.load(open(st))
+        blocks = vlib.read_blocks(cases)
+        dis = []
+        mobs = os.path.join(d, "tok.model")
+        rc, o, _ = vlib.run([vlib.MODELRUN, "serdetok", cases, mobs], timeout=1200)
+        if rc == 0 and os.path.exists(mobs):
+            a, b = dict(vlib.read_blocks(obs)), dict(vlib.read_blocks(mobs))
+            for cid, _ in blocks:
+                io, mo = a.get(cid, []), b.get(cid, [])
+                if io != mo:
+                    k = 0
+                    while k < min(len(io), len(mo)) and io[k] == mo[k]:
+                        k += 1
+                    dis.append((cid, k, "serde data model, line %d: implementation `%s` vs model `%s`" % (k, (io[k] if k < len(io) else "<missing>")[:200], (mo[k] if k < len(mo) else "<missing>")[:200])))
+            stats["compared_with_model"] = len(blocks)
+        else:
+            stats["compared_with_model"] = 0
+            stats["model_runner"] = "modelrun has no serdetok kind yet (token streams checked on the implementation only)"
+        return lines, dis[:3], stats, dict(blocks)
+
     def run(self, pid, out, tier, seed, broken):
         broken = broken or getattr(self, "pre_broken", None)
         d = workdir(pid)
@@ -1017,6 +1048,13 @@ class Serde17(SimpleCorr):
         bmap = dict(blocks)
         mine = [l for l in orc if (" " + pid + " ") in (" " + l + " ")]
         dis = self.disagreements(blocks, impl, model)
+        # the serde DATA MODEL of the eight hand-written impls (harness/src/serdetok.rs, Model/Serde17.v): a recording Serializer and a
+        # replaying Deserializer with is_human_readable as a parameter; tokens compared with the extracted model, values must survive
+        tk_lines, tk_dis, tk_stats, tk_blocks = self.token_stage(d, seed, tier)
+        mine += tk_lines
+        dis += tk_dis
+        bmap.update(tk_blocks)
+        out.coverage["serde_token_stage"] = tk_stats
         known = vlib.known_keys(pid)
         unlisted, seen_known = {}, {}
         for l in mine:
